@@ -8,7 +8,7 @@ use crate::driver::{AnyFlow, ReqCfg};
 use crate::engine::{guarded, Report, Tier, Violation};
 use crate::refmodel::reqvalid::{self, ReqFacts};
 
-pub const RULE: &str = "full product: version {0.9,1.0,1.1,2,3} x 9 methods x Host {none, one, two orig, orig+added, non-textual (invalid UTF-8), non-ASCII but well-formed UTF-8} x Content-Length {none, 3, 0, two orig, orig+added, -1, abc, non-utf8, empty value} x Transfer-Encoding {none, chunked, Chunked, CHUNKED} x despite-method {no,yes} x front end {Flow, Call::without_body, Call::with_body}; plus non-standard method tokens {get, Post, head, PURGE, M-SEARCH, GETX} x versions x Content-Length {none,3} x Transfer-Encoding {none, chunked} x despite x front ends (all refused); plus flows obtained by following a 302 (original POST with Content-Length / GET, inherited Content-Length and Cookie suppressed) x caller-added Host {none, one, two} x caller-added Content-Length {none, 3, 0, two, -1, abc, non-utf8} x Transfer-Encoding x despite; every cell with the library's logging off and again at level Trace; per cell: write(4 KiB sentinel buffer) twice, write(empty buffer), readiness, proceed. distinct = distinct (validity class, front end, outcome) triples";
+pub const RULE: &str = "full product: version {0.9,1.0,1.1,2,3} x 9 methods x Host {none, one, two orig, orig+added, non-textual (invalid UTF-8), non-ASCII but well-formed UTF-8} x Content-Length {none, 3, 0, two orig, orig+added, -1, abc, non-utf8, empty value} x Transfer-Encoding {none, chunked, Chunked, CHUNKED} x despite-method {no,yes} x front end {Flow, Call::without_body, Call::with_body} x order in which the three kinds of header enter the request {Host-CL-TE, TE-CL-Host, TE-Host-CL; where two kinds are present}; plus non-standard method tokens {get, Post, head, PURGE, M-SEARCH, GETX} x versions x Content-Length {none,3} x Transfer-Encoding {none, chunked} x despite x front ends (all refused); plus flows obtained by following a 302 (original POST with Content-Length / GET, inherited Content-Length and Cookie suppressed) x caller-added Host {none, one, two} x caller-added Content-Length {none, 3, 0, two, -1, abc, non-utf8} x Transfer-Encoding x despite; every cell with the library's logging off and again at level Trace; per cell: write(4 KiB sentinel buffer) twice, write(empty buffer), readiness, proceed. distinct = distinct (validity class, front end, outcome) triples";
 
 const METHODS: [&str; 9] = ["GET", "HEAD", "POST", "PUT", "DELETE", "CONNECT", "OPTIONS", "TRACE", "PATCH"];
 const VERSIONS: [&str; 5] = ["0.9", "1.0", "1.1", "2", "3"];
@@ -27,6 +27,9 @@ struct Cell {
     te: &'static str,
     despite: bool,
     front: &'static str,
+    /// order in which the three kinds of header enter the request: 0 = Host, Content-Length, Transfer-Encoding;
+    /// 1 = Transfer-Encoding, Content-Length, Host; 2 = Transfer-Encoding, Host, Content-Length
+    order: u8,
 }
 
 fn cells() -> Vec<Cell> {
@@ -41,7 +44,14 @@ fn cells() -> Vec<Cell> {
                                 if front != "flow" && despite {
                                     continue; // the switch exists on the flow only
                                 }
-                                v.push(Cell { version, method, host, cl, te, despite, front });
+                                for order in 0..3u8 {
+                                    // (the order only matters where at least two of the three kinds are present)
+                                    let kinds = (host != "none") as u8 + (cl != "none") as u8 + (!te.is_empty()) as u8;
+                                    if order > 0 && kinds < 2 {
+                                        continue;
+                                    }
+                                    v.push(Cell { version, method, host, cl, te, despite, front, order });
+                                }
                             }
                         }
                     }
@@ -58,7 +68,7 @@ fn cells() -> Vec<Cell> {
                             if front != "flow" && despite {
                                 continue;
                             }
-                            v.push(Cell { version, method, host: "none", cl, te, despite, front });
+                            v.push(Cell { version, method, host: "none", cl, te, despite, front, order: 0 });
                         }
                     }
                 }
@@ -73,7 +83,7 @@ fn cells() -> Vec<Cell> {
                 for cl in ["none", "3", "0", "orig+added", "two-added", "-1", "abc", "non-utf8", "empty"] {
                     for te in ["", "chunked"] {
                         for despite in [false, true] {
-                            v.push(Cell { version, method, host, cl, te, despite, front: "flow-redirected" });
+                            v.push(Cell { version, method, host, cl, te, despite, front: "flow-redirected", order: 0 });
                         }
                     }
                 }
@@ -149,6 +159,18 @@ fn cfg_of(c: &Cell) -> ReqCfg {
     }
     if !c.te.is_empty() {
         r = r.orig("transfer-encoding", c.te);
+    }
+    if c.order > 0 {
+        // the same headers, entered in another order (the header map keeps the order of first insertion per name)
+        let rank = |name: &str| -> u8 {
+            match (c.order, name) {
+                (_, "transfer-encoding") => 0,
+                (1, "content-length") | (2, "host") => 1,
+                _ => 2,
+            }
+        };
+        r.orig.sort_by_key(|h| rank(&h.0));
+        r.added.sort_by_key(|h| rank(&h.0));
     }
     r.despite(c.despite)
 }
